@@ -145,9 +145,8 @@ def run(ctx):
                                      label_switching_cost=np.int64(beta), min_meaningful_covariance=np.int32(0))),
                     ("matrix-lambda", dict(sparsity_weight=np.full((n, n), float(lam)), label_switching_cost=float(beta),
                                            min_meaningful_covariance=0.0))]
-        if not cfg["joint"]:
-            variants.append(("vector-beta", dict(sparsity_weight=float(lam), label_switching_cost=np.full(npts, float(beta)),
-                                                 min_meaningful_covariance=0.0)))
+        variants.append(("vector-beta", dict(sparsity_weight=float(lam), label_switching_cost=np.full(npts, float(beta)),
+                                             min_meaningful_covariance=0.0)))
         results = {}
         for name, kw in variants:
             k2 = dict(base_kw)
